@@ -17,7 +17,7 @@ META = {
 def TASKS(tier):
     st = [t for t in start_tasks(tier, 'start', progress=False) if t.params['nsenders'] == 1]
     en = [t for t in end_tasks(tier, 'end_order', ('batching',)) if t.params['blocks'] == [1]]
-    return reorder_tasks(tier, 'reorder') + st + en
+    return reorder_tasks(tier, 'reorder') + st + en + flat_map_tasks(tier, 'flat_map')
 
 
 def classify(t, v):
